@@ -241,8 +241,19 @@ async function runJob(job, cg) {
   const out = { id: job.id, load: "ok", loadmsg: "", probes: [], names: [] };
   let parsers;
   try {
-    const mod = await loadModule(job.code, job.reqS, job.reqN);
-    parsers = mod.buildParsers({ stringFormats: STRING_FORMATS, numberFormats: NUMBER_FORMATS });
+    if (job.build) {
+      // a parser built at run time with the client's builder API; named types get names unique to the job
+      const bm = await import(pathToFileURL(path.join(clientDir, "b.js")).href);
+      const named = new Map();
+      const N = (name, p) => {
+        if (!named.has(name)) named.set(name, cg.createNamedType(`B${process.pid}_${job.id}_${name}`, p));
+        return named.get(name);
+      };
+      parsers = { [job.root]: new Function("b", "buntyped", "N", "return " + job.build)(bm.b, bm.buntyped, N) };
+    } else {
+      const mod = await loadModule(job.code, job.reqS, job.reqN);
+      parsers = mod.buildParsers({ stringFormats: STRING_FORMATS, numberFormats: NUMBER_FORMATS });
+    }
     out.names = Object.keys(parsers);
   } catch (e) {
     out.load = "fail";
